@@ -1,6 +1,237 @@
-//! C07 — not built yet.
-use crate::rt::*;
+//! C07 — the reported invariant noise budget is the true one; fresh budgets meet the
+//! worst-case bound; negation keeps it; sums of k lose at most ceil(log2 k)+1 bits; exact
+//! decryption whenever the exact noise is below the threshold.
+//! Oracle: exact big-integer evaluation of the definition on the phase under the recovered secret.
 
-pub fn run(_cfg: &Cfg, _rep: &mut Report) -> PropMeta {
-    PropMeta { id: "C07", level: "exploration", rule: "not built", assumptions: vec![], exhaustive: false, floor: 1 }
+use crate::big::BigU;
+use crate::he::*;
+use crate::prog::*;
+use crate::props::c01::gen_plain;
+use crate::props::c02::{op_brief, program_spec};
+use crate::refm;
+use crate::rt::*;
+use heathcliff::*;
+use serde_json::json;
+
+const P: &str = "C07";
+
+struct Obs<'a> { cfg: &'a Cfg, grp: &'a str, case: u64 }
+
+fn viol(o: &Obs, rep: &mut Report, op: &str, class: &str, kind: &str, detail: String, m: &Machine, trace: &[String]) {
+    rep.violation(&format!("{}|{}|{}|{}", P, op, class, kind), format!("{} ; program: {:?} ; params {}", detail, trace, m.kit.spec.describe()),
+        replay_json(o.cfg, o.grp, o.case, json!({"params": m.kit.spec.describe(), "program": trace})));
+}
+
+/// library budget of a ciphertext in any representation (the API wants coefficient form)
+fn lib_budget(m: &Machine, ct: &Ciphertext) -> Result<usize, Panicked> {
+    lib(|| {
+        if ct.is_ntt_form() { let c = m.kit.eval.transform_from_ntt_new(ct); m.kit.dec.invariant_noise_budget(&c) } else { m.kit.dec.invariant_noise_budget(ct) }
+    })
+}
+
+fn ceil_log2(k: usize) -> usize { let mut b = 0; while (1usize << b) < k { b += 1; } b }
+
+/// checks (a) and (d) on one pool element; returns (library budget, oracle budget)
+fn observe(o: &Obs, rep: &mut Report, m: &Machine, el: &Elem, what: &str, trace: &[String]) -> Option<(usize, usize)> {
+    let scheme = m.kit.spec.scheme_name();
+    let k = m.kit.level_qs(el.level).len();
+    let cls = format!("{}|words={}|size={}", scheme, k, if el.ct.size() == 2 { "2" } else { ">2" });
+    let lb = match lib_budget(m, &el.ct) {
+        Ok(b) => b,
+        Err(p) => { viol(o, rep, "invariant_noise_budget", &cls, "panic", format!("budget of a valid ciphertext ({}) panicked: {}", what, p.0), m, trace); return None; }
+    };
+    let oracle = m.oracle.as_ref()?;
+    let (om, ob, norm) = if m.bfv { oracle.bfv(&m.kit.ctx, &el.ct, m.t()) } else { oracle.bgv(&m.kit.ctx, &el.ct, m.t()) };
+    rep.count("budget_checked", &format!("{}|words={}|size={}|L{}|budget={}", scheme, k, el.ct.size().min(9), el.level, match ob { 0 => "0", 1..=3 => "1-3", 4..=15 => "4-15", 16..=63 => "16-63", _ => "64+" }));
+    rep.min(&format!("budget_seen_{}", scheme), ob as f64);
+    rep.max(&format!("budget_seen_{}", scheme), ob as f64);
+    if lb != ob {
+        viol(o, rep, "invariant_noise_budget", &cls, "value", format!("library budget {} != exact budget {} (noise norm {} bits, level {}, {})", lb, ob, norm.bits(), el.level, what), m, trace);
+    }
+    // (d) exact noise strictly inside the threshold => library decryption is the message the ciphertext carries
+    let q = refm::product(&m.kit.level_qs(el.level));
+    let inside = norm.shl(1).add(&norm.shr(9)) < q; // 2*norm*(1+2^-10) < q
+    if inside {
+        rep.count("decrypt_checked", &format!("{}|budget={}", scheme, ob.min(8)));
+        match m.lib_decrypt(&el.ct) {
+            Err(p) => viol(o, rep, "decrypt", &cls, "panic", format!("decrypt panicked although exact noise is below threshold: {}", p.0), m, trace),
+            Ok(got) => if got != om {
+                viol(o, rep, "decrypt", &cls, "value", format!("exact noise below threshold (budget {}) but library decryption {:?} != exact decryption {:?}", ob, &got[..got.len().min(6)], &om[..om.len().min(6)]), m, trace);
+            }
+        }
+    }
+    rep.eval(Some(&format!("{}|{}|{}|{}|{}", scheme, k, el.ct.size(), el.level, ob)));
+    Some((lb, ob))
+}
+
+fn fresh_check(o: &Obs, rep: &mut Report, m: &Machine, idx: usize, pk: bool, trace: &[String]) {
+    let el = &m.pool[idx];
+    let Some((lb, _)) = observe(o, rep, m, el, "fresh", trace) else { return };
+    // norm <= t * E_fresh (BFV: t*|eps|, BGV: |phase|)
+    let e = m.fresh_bound(pk);
+    let bound = if m.bfv { (m.t() as f64 * e).ceil() } else { e.ceil() };
+    let q = refm::product(&m.kit.level_qs(0));
+    let nb = BigU::from_u128(bound as u128).bits();
+    let want = (q.bits() as isize - nb as isize - 1).max(0) as usize;
+    rep.count("fresh_checked", &format!("{}|{}", m.kit.spec.scheme_name(), if pk { "pk" } else { "sk" }));
+    if lb < want {
+        viol(o, rep, "fresh_budget", &format!("{}|{}", m.kit.spec.scheme_name(), if pk { "pk" } else { "sk" }), "value", format!("fresh budget {} below the worst-case guarantee {} (q {} bits, bound {})", lb, want, q.bits(), bound), m, trace);
+    }
+}
+
+fn spec_for(rng: &mut Rng, ns: &[usize]) -> Option<Spec> {
+    if rng.chance(1, 6) {
+        // single prime: one-word norm path, no key switching
+        let scheme = if rng.bool() { SchemeType::BFV } else { SchemeType::BGV };
+        let n = *rng.pick(ns);
+        let qs = coeff_primes(n, &[rng.range(40, 60) as u32], rng)?;
+        let t = *rng.pick(&[2u64, 3, 16, 17, 257]);
+        if refm::gcd(qs[0], t) != 1 { return None; }
+        return Some(Spec { scheme, n, qs, t, special_flag: false, expand: true, family: "single_prime".into() });
+    }
+    program_spec(rng, ns, None)
+}
+
+fn programs(cfg: &Cfg, grp: &str, case: u64, rng: &mut Rng, rep: &mut Report, ns: &[usize]) {
+    let Some(spec) = spec_for(rng, ns) else { return };
+    let Ok(kit) = Kit::new(&spec) else { return };
+    let o = Obs { cfg, grp, case };
+    let mut m = Machine::new(&kit, true);
+    if m.oracle.is_none() { rep.harness_errors.push("oracle unavailable".into()); return; }
+    let mut trace = vec![];
+    for _ in 0..4 {
+        let (cls, coeffs) = gen_plain(rng, m.n(), m.t());
+        let pk = rng.bool();
+        trace.push(format!("fresh({}, {})", cls, if pk { "pk" } else { "sk" }));
+        let Ok(i) = m.fresh(&coeffs, pk) else { return };
+        fresh_check(&o, rep, &m, i, pk, &trace);
+    }
+    let steps = rng.range(4, cfg.pick(14, 30)) as usize;
+    for _ in 0..steps {
+        let Some(op) = m.random_op(rng) else { break };
+        let form = *rng.pick(&FORMS);
+        let ops = Machine::operands(&op);
+        trace.push(format!("{}/{:?}", op_brief(&op), form));
+        let Ok(ct) = m.execute(&op, form) else { continue }; // panics on well-typed operations are C02's business
+        let el = m.result_elem(&op, ct);
+        let Some((lb, _)) = observe(&o, rep, &m, &el, op.name(), &trace) else { continue };
+        // (c) negation keeps the budget; sums / differences of k lose at most ceil(log2 k)+1 bits
+        let same_cf = ops.iter().all(|i| m.pool[*i].ct.correction_factor() == m.pool[ops[0]].ct.correction_factor());
+        match &op {
+            Op::Negate(a) => {
+                if let Ok(b0) = lib_budget(&m, &m.pool[*a].ct) { rep.count("relation_checked", "negate");
+                    if b0 != lb { viol(&o, rep, "negate", m.kit.spec.scheme_name(), "value", format!("budget changed under negation: {} -> {}", b0, lb), &m, &trace); } }
+            }
+            Op::Add(..) | Op::Sub(..) | Op::AddMany(_) if same_cf => {
+                let k = ops.len();
+                let bs: Vec<usize> = ops.iter().filter_map(|i| lib_budget(&m, &m.pool[*i].ct).ok()).collect();
+                if bs.len() == k {
+                    let minb = *bs.iter().min().unwrap();
+                    let allowed = ceil_log2(k) + 1;
+                    rep.count("relation_checked", &format!("sum_k={}", k));
+                    if lb + allowed < minb {
+                        viol(&o, rep, op.name(), &format!("{}|k={}", m.kit.spec.scheme_name(), k), "value", format!("sum of {} ciphertexts with budgets {:?} has budget {} (< min - {})", k, bs, lb, allowed), &m, &trace);
+                    }
+                }
+            }
+            _ => {}
+        }
+        m.pool.push(el);
+        if m.pool.len() > 28 { break; }
+    }
+    if case < 2 { rep.sample(json!({"group": grp, "case": case, "params": spec.describe(), "program": trace,
+        "budgets": m.pool.iter().map(|e| json!({"origin": e.origin, "size": e.ct.size(), "level": e.level, "library_budget": lib_budget(&m, &e.ct).ok(), "exact_budget": m.oracle_decrypt(&e.ct).map(|x| x.1)})).collect::<Vec<_>>()})); }
+}
+
+/// k-fold sums, k = 2..64
+fn sums(cfg: &Cfg, grp: &str, case: u64, rng: &mut Rng, rep: &mut Report) {
+    let Some(spec) = spec_for(rng, &[2, 4, 8, 16]) else { return };
+    let Ok(kit) = Kit::new(&spec) else { return };
+    let o = Obs { cfg, grp, case };
+    let mut m = Machine::new(&kit, true);
+    if m.oracle.is_none() { return; }
+    let k = match rng.below(4) { 0 => 64, 1 => rng.range(2, 8) as usize, 2 => *rng.pick(&[3usize, 5, 9, 17, 33]), _ => rng.range(2, 64) as usize };
+    let mut trace = vec![format!("{} fresh ciphertexts", k)];
+    for _ in 0..k { let (_, c) = gen_plain(rng, m.n(), m.t()); if m.fresh(&c, rng.bool()).is_err() { return; } }
+    let idx: Vec<usize> = (0..k).collect();
+    let bs: Vec<usize> = idx.iter().filter_map(|i| lib_budget(&m, &m.pool[*i].ct).ok()).collect();
+    if bs.len() != k { return; }
+    let minb = *bs.iter().min().unwrap();
+    // (1) add_many, (2) alternating add/sub chain
+    let op = Op::AddMany(idx.clone());
+    trace.push(format!("add_many of {}", k));
+    if let Ok(ct) = m.execute(&op, *rng.pick(&FORMS)) {
+        let el = m.result_elem(&op, ct);
+        if let Some((lb, _)) = observe(&o, rep, &m, &el, "add_many", &trace) {
+            rep.count("relation_checked", &format!("sum_k={}", k));
+            if lb + ceil_log2(k) + 1 < minb { viol(&o, rep, "add_many", &format!("{}|k={}", spec.scheme_name(), k), "value", format!("sum of {} fresh ciphertexts (min budget {}) has budget {}", k, minb, lb), &m, &trace); }
+        }
+    }
+    let mut acc = m.pool[0].ct.clone();
+    for i in 1..k {
+        let r = lib(|| if i % 2 == 0 { m.kit.eval.add_new(&acc, &m.pool[i].ct) } else { m.kit.eval.sub_new(&acc, &m.pool[i].ct) });
+        match r { Ok(c) => acc = c, Err(_) => return }
+    }
+    if let Ok(lb) = lib_budget(&m, &acc) {
+        rep.count("relation_checked", &format!("chain_k={}", k));
+        if lb + ceil_log2(k) + 1 < minb { viol(&o, rep, "add_sub_chain", &format!("{}|k={}", spec.scheme_name(), k), "value", format!("alternating sum of {} fresh ciphertexts (min budget {}) has budget {}", k, minb, lb), &m, &trace); }
+    }
+    rep.eval(Some(&format!("sum|{}|{}", spec.scheme_name(), k)));
+}
+
+/// drive ciphertexts at every word count down to zero budget
+fn burn(cfg: &Cfg, grp: &str, case: u64, rng: &mut Rng, rep: &mut Report) {
+    let Some(spec) = spec_for(rng, &[2, 4, 8, 16, 32]) else { return };
+    let Ok(kit) = Kit::new(&spec) else { return };
+    let o = Obs { cfg, grp, case };
+    let mut m = Machine::new(&kit, true);
+    if m.oracle.is_none() { return; }
+    let mut trace = vec![];
+    let (_, c0) = gen_plain(rng, m.n(), m.t());
+    let Ok(mut cur) = m.fresh(&c0, rng.bool()) else { return };
+    let mut zeros = 0;
+    for _ in 0..60 {
+        let mut ops: Vec<Op> = vec![];
+        let full: Vec<u64> = (0..m.n()).map(|_| rng.below(m.t())).collect();
+        match rng.below(4) {
+            0 if m.pool[cur].ct.size() == 2 && m.applicable(&Op::Square(cur)).is_none() => { ops.push(Op::Square(cur)); }
+            1 => { ops.push(Op::MultiplyPlain(cur, full, rng.bool())); }
+            2 if m.pool[cur].level + 1 < m.kit.levels.len() && m.applicable(&Op::ModSwitchNext(cur)).is_none() && rng.chance(1, 3) => { ops.push(Op::ModSwitchNext(cur)); }
+            _ => { ops.push(Op::MultiplyPlain(cur, full, false)); }
+        }
+        for op in ops {
+            trace.push(format!("{}", op_brief(&op)));
+            if trace.len() > 30 { trace.remove(0); }
+            let Ok(ct) = m.execute(&op, *rng.pick(&FORMS)) else { return };
+            let el = m.result_elem(&op, ct);
+            let ob = observe(&o, rep, &m, &el, op.name(), &trace).map(|x| x.1).unwrap_or(0);
+            m.pool.push(el);
+            cur = m.pool.len() - 1;
+            if m.pool[cur].ct.size() == 3 && m.applicable(&Op::Relinearize(cur)).is_none() {
+                let op = Op::Relinearize(cur);
+                let Ok(ct) = m.execute(&op, *rng.pick(&FORMS)) else { return };
+                let el = m.result_elem(&op, ct);
+                observe(&o, rep, &m, &el, op.name(), &trace);
+                m.pool.push(el); cur = m.pool.len() - 1;
+            }
+            if ob == 0 { zeros += 1; }
+        }
+        if zeros >= 2 || m.pool[cur].ct.size() > 8 { break; }
+    }
+}
+
+pub fn run(cfg: &Cfg, rep: &mut Report) -> PropMeta {
+    run_cases(cfg, "programs", cfg.n(6000, 100000) as u64, rep, |i, rng, rep| programs(cfg, "programs", i, rng, rep, &[2, 4, 8, 16, 32]));
+    run_cases(cfg, "programs_mid", cfg.n(60, 1500) as u64, rep, |i, rng, rep| programs(cfg, "programs_mid", i, rng, rep, &[64, 128, 256]));
+    if !cfg.quick() { run_cases(cfg, "programs_1024", cfg.n(1, 40) as u64, rep, |i, rng, rep| programs(cfg, "programs_1024", i, rng, rep, &[512, 1024])); }
+    run_cases(cfg, "burn", cfg.n(3000, 60000) as u64, rep, |i, rng, rep| burn(cfg, "burn", i, rng, rep));
+    run_cases(cfg, "sums", cfg.n(1500, 30000) as u64, rep, |i, rng, rep| sums(cfg, "sums", i, rng, rep));
+    PropMeta {
+        id: "C07", level: "exploration",
+        rule: "every pool element produced by random BFV/BGV operation programs (sizes 2..16, every level, budgets from full down to 0, 1..6 primes so the 1..6-word norm paths are hit) plus fresh encryptions (pk/sk) and k-fold sums k=2..64; distinct = distinct (scheme, prime count, size, level, exact budget) tuples",
+        assumptions: vec!["definition of the budget as implemented and documented: bitlen(q) - bitlen(||[t*c(s)]_q||) - 1 for BFV, with ||[c(s)]_q|| for BGV, clamped at 0".into(),
+            "exact-decryption direction asserted when 2*norm*(1+2^-10) < q (margin for the library's approximate rounding)".into(),
+            "oracle decryptor limited to N <= 1024 (quick: <= 256)".into()],
+        exhaustive: false, floor: 2000,
+    }
 }
